@@ -243,6 +243,7 @@ func main() {
 	for _, l := range []int{1, 3} {
 		bkWindow(light, scratch, "seq.before_cache", l)
 		bkWindow(light, scratch, "seq.before_broadcast", l)
+		bkBytes(light, scratch, l+4)
 	}
 	ringCases(light, rnd.Fork(), args.Tier)
 	hubCases(light, rnd.Fork(), args.Tier)
@@ -263,6 +264,19 @@ func main() {
 			bkMulti(light, br, scratch, l)
 		}
 	}
+	// concurrent stress of the ring and of the backend's event cache (probabilistic; failures are ImplFailures)
+	sd := 100 * time.Millisecond
+	if args.Tier != "quick" {
+		sd = 1500 * time.Millisecond
+	}
+	sh, sc := 0, 0
+	for _, cfg := range [][2]int{{64, 20}, {256, 20}, {512, 60}} {
+		h, c := ringStress(light, cfg[0], sd, cfg[1])
+		sh, sc = sh+h, sc+c
+	}
+	bh, bc := bkStress(light, scratch, 64, 3*sd)
+	w.Stats.Extra["ring_stress"] = map[string]int{"find_events_calls": sc, "calls_returning_events": sh,
+		"backend_watches": bc, "backend_watches_with_catch_up": bh}
 	// heavy cases go to positions 0, perShard, 2*perShard, ...
 	order := []lib.Case{}
 	failAt := map[int][]lib.ImplFailure{}
